@@ -87,6 +87,8 @@ type State struct {
 	conc    map[int]uint64
 	budget  int
 	steps   int
+	boundLabel    string // vrt.Bounded region: label of the termination obligation
+	boundDeadline int    // value of steps at which it is violated
 	tags    []string
 	covers  []string
 	trace   []SchedEvent
@@ -109,6 +111,7 @@ func (st *State) clone() *State {
 		pc:     st.pc,
 		budget: st.budget,
 		steps:  st.steps,
+		boundLabel: st.boundLabel, boundDeadline: st.boundDeadline,
 		tags:   append([]string(nil), st.tags...),
 		covers: append([]string(nil), st.covers...),
 		trace:  append([]SchedEvent(nil), st.trace...),
@@ -219,6 +222,23 @@ func setPath(v Value, path []int, nv Value) Value {
 		return x.set(i, setPath(x.get(i), path[1:], nv))
 	}
 	panic(engErr("setPath: cannot index %T", v))
+}
+
+// sliceArr returns the backing array of a slice.
+func (st *State) sliceArr(s SliceV) *ArrV {
+	if len(s.path) == 0 {
+		return st.heap[s.obj].(*ArrV)
+	}
+	return getPath(st.heap[s.obj], s.path).(*ArrV)
+}
+
+// setSliceArr replaces the backing array of a slice.
+func (st *State) setSliceArr(s SliceV, a *ArrV) {
+	if len(s.path) == 0 {
+		st.heap[s.obj] = a
+		return
+	}
+	st.heap[s.obj] = setPath(st.heap[s.obj], s.path, a)
 }
 
 func (st *State) load(p Ptr) Value {
